@@ -71,6 +71,10 @@ Section Paths.
     end.
 
   Definition normalize_token (cwd t : str) : str := expand_token cwd false t.
+  (* _expand_home_only: ~ and ~/x get the home directory in front, nothing is resolved; every other
+     token (also ~user, $VAR, a token with "://") is returned as written *)
+  Definition expand_home_only (t : str) : str :=
+    match classify t with KHome => home ++ tl t | _ => t end.
   Definition normalize_words (cwd : str) (ws : list str) : str :=
     join [c_sp] (map (normalize_token cwd) ws).
 End Paths.
